@@ -102,7 +102,7 @@ def get_adjusted_url(url: str, addr: AddressTupleVXType) -> str:
     except ValueError:
         return url
 
-    if not address.is_link_local:
+    if address.version != 6 or not address.is_link_local:
         return url
 
     netloc = f"[{hostname}%{addr[3]}]"
